@@ -185,6 +185,9 @@ def r_literal(ctx: Ctx, rt: RT):
         return Obj(kind="Hasher", attrs={"doc": a[0] if a else None, "updates": 1 if a else 0})
     for algo in ("md5", "sha1", "sha256", "blake2b"):
         I.ext[f"hashlib.{algo}"] = md5
+    I.libmeth[("Hasher", "update")] = lambda I, v, a, k, n: seen.__setitem__("doc", a[0])
+    I.libmeth[("Hasher", "hexdigest")] = lambda I, v, a, k, n: "DIGEST"
+    I.libmeth[("JsonDoc", "encode")] = lambda I, v, a, k, n: v
 
     def ints_in(v, path=""):
         if isinstance(v, Obj) and v.kind == "PyInt":
